@@ -315,6 +315,26 @@ class POP3CommandHandler:
 
     ##################################################################
     #
+    def _msg_key(self, pop3_num: int) -> int | None:
+        """
+        The MH message key that the message with the given POP3 message
+        number has *now*, or None if that message no longer exists.
+
+        NOTE: The message keys recorded at session start do not stay valid:
+              the folder may get packed, and when the highest numbered
+              message is expunged by an IMAP client its key is handed to the
+              next message that is delivered. The UID of a message never
+              changes, so we go through that.
+        """
+        assert self.mbox is not None
+        uid = self.snapshot_uids[pop3_num - 1]
+        idx = self.mbox._uid_to_idx.get(uid)
+        if idx is None:
+            return None
+        return self.mbox.msg_keys[idx]
+
+    ##################################################################
+    #
     def _get_msg_size(self, pop3_num: int) -> int:
         """
         Get the size of a message in octets, computing lazily and
@@ -322,8 +342,10 @@ class POP3CommandHandler:
         """
         if pop3_num not in self.msg_sizes:
             assert self.mbox is not None
-            msg_key = self.snapshot_msg_keys[pop3_num - 1]
+            msg_key = self._msg_key(pop3_num)
             try:
+                if msg_key is None:
+                    raise KeyError(pop3_num)
                 msg = self.mbox.get_msg(msg_key)
                 self.msg_sizes[pop3_num] = get_msg_size(msg)
             except (KeyError, FileNotFoundError):
@@ -414,8 +436,10 @@ class POP3CommandHandler:
             return True
 
         assert self.mbox is not None
-        msg_key = self.snapshot_msg_keys[n - 1]
+        msg_key = self._msg_key(n)
         try:
+            if msg_key is None:
+                raise KeyError(n)
             msg = self.mbox.get_msg(msg_key)
         except (KeyError, FileNotFoundError):
             await self.client.push("-ERR message not available\r\n")
@@ -522,8 +546,10 @@ class POP3CommandHandler:
             return True
 
         assert self.mbox is not None
-        msg_key = self.snapshot_msg_keys[n - 1]
+        msg_key = self._msg_key(n)
         try:
+            if msg_key is None:
+                raise KeyError(n)
             msg = self.mbox.get_msg(msg_key)
         except (KeyError, FileNotFoundError):
             await self.client.push("-ERR message not available\r\n")
